@@ -12,7 +12,8 @@ thread, timer and clock the library uses.
   `point()` calls of the harness.
 * `explore()` is a stateless DFS with replay and iterative bounding of two deviation
   kinds: preemptions (switching away from a runnable thread) and clock ticks (advancing the
-  controlled clock to the next deadline although some thread is runnable).
+  controlled clock to the next deadline although some thread is runnable); switches at
+  voluntary yields of harness callbacks are free of preemption cost but bounded by VB.
 """
 from __future__ import annotations
 
@@ -372,10 +373,10 @@ class CExecutor:
 # ===================================================================== one execution
 
 class Point:
-    __slots__ = ("n", "me_enabled", "tick_index", "chosen", "label")
+    __slots__ = ("n", "me_enabled", "tick_index", "chosen", "label", "vol")
 
-    def __init__(self, n, me_enabled, tick_index, chosen, label):
-        self.n, self.me_enabled, self.tick_index, self.chosen, self.label = n, me_enabled, tick_index, chosen, label
+    def __init__(self, n, me_enabled, tick_index, chosen, label, vol=False):
+        self.n, self.me_enabled, self.tick_index, self.chosen, self.label, self.vol = n, me_enabled, tick_index, chosen, label, vol
 
 
 class Run:
@@ -534,7 +535,7 @@ class Run:
                         self._finish()
                         raise AbortRun()
                 # a voluntary yield (harness callback "blocking" inside user code) costs no preemption
-                self.points.append(Point(len(options), me_enabled and not voluntary, tick_index, choice, label))
+                self.points.append(Point(len(options), me_enabled and not voluntary, tick_index, choice, label, voluntary and me_enabled))
                 self.choices.append(choice)
             pick = options[choice]
             if pick == "tick":
@@ -642,19 +643,19 @@ class Stats:
 
 def explore(harness, PB: int, TB: int, judge: Callable[[Run], None], deadline: float | None = None,
             start: list | None = None, split_at: int | None = None, stats: Stats | None = None,
-            max_points: int = 4000, horizon: float = 50.0):
+            max_points: int = 4000, horizon: float = 50.0, VB: int = 2):
     """Stateless DFS over all schedules with <= PB preemptions and <= TB tick deviations.
-    Returns (stats, leftover) — leftover = unexplored (prefix, used_p, used_t) items when
+    Returns (stats, leftover) — leftover = unexplored (prefix, used_p, used_t, used_v) items when
     split_at is given and the stack reached that size (for distributing subtrees)."""
     st = stats or Stats()
-    stack = list(start) if start is not None else [([], 0, 0)]
+    stack = list(start) if start is not None else [([], 0, 0, 0)]
     while stack:
         if deadline is not None and _time.time() > deadline:
             st.complete = False
             return st, stack
         if split_at is not None and len(stack) >= split_at:
             return st, stack
-        prefix, up, ut = stack.pop()
+        prefix, up, ut, uv = stack.pop()
         x = execute(harness, prefix, max_points, horizon)
         st.executions += 1
         if x.outcome.startswith("engine-error"):
@@ -671,8 +672,9 @@ def explore(harness, PB: int, TB: int, judge: Callable[[Run], None], deadline: f
                 is_tick = alt == p.tick_index
                 cp = up + (1 if (p.me_enabled and not is_tick) else 0)
                 ct = ut + (1 if is_tick else 0)
-                if cp <= PB and ct <= TB:
-                    kids.append((x.choices[:i] + [alt], cp, ct))
+                cv = uv + (1 if (p.vol and not is_tick) else 0)  # switching away at a voluntary yield of a harness callback
+                if cp <= PB and ct <= TB and cv <= VB:
+                    kids.append((x.choices[:i] + [alt], cp, ct, cv))
         stack.extend(reversed(kids))
     return st, []
 
